@@ -139,7 +139,7 @@ func ruleUniverse(thorough bool) []acl.Rules {
 		actionSets = append(actionSets, []acl.Action{a})
 	}
 	actionSets = append(actionSets, []acl.Action{acl.ActionGet, acl.ActionInfo}, hx.AllActions)
-	patSets := [][]acl.Secret{{"*"}, {"a"}, {"a*"}, {"ab"}, {"b", "a"}, {"a", "zz"}, {"_internal/*"}, {}}
+	patSets := [][]acl.Secret{{"*"}, {"a"}, {"a*"}, {"ab"}, {"b", "a"}, {"a", "zz"}, {"a*a"}, {"_internal/*"}, {}}
 	var rules []acl.Rule
 	for _, as := range actionSets {
 		for _, ps := range patSets {
